@@ -370,6 +370,7 @@ func runCheck(id, tier string) int {
 	sh.preempt = ts.Preempt
 	sh.poolAdversarial = ts.PoolAdv
 	sh.lockCheck = ts.LockCheck
+	sh.ignoreAsserts = ts.LockCheck // the lock check borrows other harnesses for their paths only
 	var targets []*ssa.Package
 	for _, pd := range spec.Pkgs {
 		if p := sh.spkgs[pkgPathOf(pd)]; p != nil {
@@ -490,6 +491,7 @@ func runCheck(id, tier string) int {
 	kfPrinted := map[string]bool{}
 	var sampleViol []map[string]interface{}
 	nviol := 0
+	var lockEdgeList map[string]string
 	for _, vr := range viols {
 		v := vr.v
 		isKnown := known[v.Harness+"/"+v.Label]
@@ -556,6 +558,32 @@ func runCheck(id, tier string) int {
 		sv["outcome"] = "VIOLATION"
 		sampleViol = append(sampleViol, sv)
 		exit = 1
+	}
+	// lock order (C32): two lock classes acquired in opposite orders on two explored paths
+	if sh.lockCheck {
+		edges := map[string]string{}
+		for _, hr := range results {
+			for e, site := range hr.LockEdges {
+				edges[e] = hr.Spec.Fn + " @ " + site
+			}
+		}
+		for e, site := range edges {
+			p := strings.SplitN(e, " -> ", 2)
+			if len(p) == 2 && p[0] < p[1] {
+				if site2, ok := edges[p[1]+" -> "+p[0]]; ok {
+					label := "lock-order:" + p[0] + "<->" + p[1]
+					if known["*/"+label] {
+						fmt.Printf("KNOWN-FINDING: property=%s opposite lock orders %s (%s) and the reverse (%s)\n", id, e, site, site2)
+					} else {
+						fmt.Printf("VIOLATION property=%s replay=%s\n  locks %s and %s are acquired in opposite orders: %s / %s\n", id, filepath.Join(verifRoot, "evidence", id+".json"), p[0], p[1], site, site2)
+						exit = 1
+						nviol++
+					}
+				}
+			}
+		}
+		lockEdgeList = edges
+		_ = lockEdgeList
 	}
 	// vacuity: every harness must have completed paths, every reach label present
 	for _, hr := range results {
@@ -676,6 +704,29 @@ func buildEvidence(id, tier string, seed int64, spec *CheckSpec, ts *TierSpec, s
 	}
 	if len(broken) > 0 {
 		cov["broken"] = broken
+	}
+	if sh.lockCheck {
+		sites := map[string]bool{}
+		edges := map[string]string{}
+		for _, hr := range results {
+			for k := range hr.LockSites {
+				sites[k] = true
+			}
+			for k, v := range hr.LockEdges {
+				edges[k] = v
+			}
+		}
+		var sl, el []string
+		for k := range sites {
+			sl = append(sl, k)
+		}
+		for k, v := range edges {
+			el = append(el, k+"  @ "+v)
+		}
+		sort.Strings(sl)
+		sort.Strings(el)
+		cov["lock_acquisition_sites_executed"] = sl
+		cov["lock_order_edges"] = el
 	}
 	return map[string]interface{}{"property_id": id, "tier": tier, "seed": seed, "level": "model_checking", "coverage": cov, "assumptions": assumptions, "wall_s": round2(wall.Seconds()), "violations": nviol}
 }
